@@ -34,9 +34,9 @@
 //!   width, a tall cell must fit the reported height. With `wraps = false` a cell must be missing
 //!   iff it lies beyond the right edge (col + width > W in the harness's own line model).
 //!   Kept out of the deciding set (counted as features):
-//!   - `layout.free.unit-wider-than-W`: with wrapping, a cell wider than W cannot be shown
-//!     entirely anywhere (the code puts it at column 0 of a fresh line): neither demanded nor
-//!     forbidden, no span check;
+//!   - `layout.unit-wider-than-W(presence-required)`: with wrapping, a cell wider than W cannot be
+//!     shown entirely anywhere (the code puts it at column 0 of a fresh line): it must still
+//!     appear once and in order, only its span is not checked;
 //!   - `layout.free.fits-after-dropped-cell`: without wrapping the code does not advance over a
 //!     dropped cell, so a later narrower cell of the same line may still be placed; whether
 //!     that cell "lies beyond the right edge" is debatable: neither demanded nor forbidden;
@@ -939,6 +939,10 @@ enum Expect {
     Absent,
     /// not decided by the property (see `check_layout`)
     Free,
+    /// wider than the whole line (wrapping on): it cannot fit anywhere, but it is a printable cell
+    /// of the text and must still appear exactly once and in order (the code puts it at column 0
+    /// of a fresh line); its span is not checked
+    RequiredUnfit,
 }
 
 /// one printable cell as the harness expects it
@@ -1095,13 +1099,14 @@ fn check_layout(case: &LayoutCase, ctx: &mut Ctx) -> Result<(), Fail> {
 
     // --- which units does the property require / forbid?
     if case.wraps {
-        // A cell wider than the whole available width cannot be shown entirely anywhere: the
-        // unchanged code still puts it at column 0 of a fresh line, another implementation could
-        // drop it. Edge of the domain: neither demanded nor forbidden.
+        // A cell wider than the whole available width cannot be shown entirely anywhere, but the
+        // statement covers all maximum widths >= 1 and every printable cell: it must still appear
+        // once, in order (the unchanged code puts it at column 0 of a fresh line). Only its span
+        // is not judged.
         for unit in units.iter_mut() {
             if unit.width > width {
-                unit.expect = Expect::Free;
-                ctx.feat("layout.free.unit-wider-than-W");
+                unit.expect = Expect::RequiredUnfit;
+                ctx.feat("layout.unit-wider-than-W(presence-required)");
             }
         }
     } else {
@@ -1281,7 +1286,7 @@ fn check_layout(case: &LayoutCase, ctx: &mut Ctx) -> Result<(), Fail> {
             );
         };
         // units skipped must not be Required
-        if let Some(lost) = (next..hit).find(|i| units[*i].expect == Expect::Required) {
+        if let Some(lost) = (next..hit).find(|i| matches!(units[*i].expect, Expect::Required | Expect::RequiredUnfit)) {
             let unit = &units[lost];
             fail!(
                 format!("layout:missing-cell:{mode}:{}", unit.kind.name()),
@@ -1320,7 +1325,7 @@ fn check_layout(case: &LayoutCase, ctx: &mut Ctx) -> Result<(), Fail> {
         placed[hit] = Some((f.row, f.col));
         next = hit + 1;
     }
-    if let Some(lost) = (next..units.len()).find(|i| units[*i].expect == Expect::Required) {
+    if let Some(lost) = (next..units.len()).find(|i| matches!(units[*i].expect, Expect::Required | Expect::RequiredUnfit)) {
         let unit = &units[lost];
         fail!(
             format!("layout:missing-cell:{mode}:{}", unit.kind.name()),
@@ -1337,7 +1342,7 @@ fn check_layout(case: &LayoutCase, ctx: &mut Ctx) -> Result<(), Fail> {
     let mut prev: Option<(usize, usize, usize)> = None; // row, end column, unit
     for (index, unit) in units.iter().enumerate() {
         let Some((row, col)) = placed[index] else { continue };
-        if unit.expect == Expect::Free {
+        if matches!(unit.expect, Expect::Free | Expect::RequiredUnfit) {
             prev = None;
             continue;
         }
